@@ -50,20 +50,38 @@ NE_MAX = 400
 # generators
 
 
+TYPES = (gm.T2D * 2 + ["TETRA4", "TETRA10", "HEXA8", "PRISM6", "PRISM15", "PRISM18"] * 2 + ["HEXA20", "HEXA27"])
+
+
 @st.composite
-def part_recipes(draw, dims=("2d", "2d", "3d")):
-    kind = draw(st.sampled_from(list(dims)))
-    if kind == "2d":
-        r = draw(gm.recipes2d(affine_ok=False, perm_ok=False))
+def part_recipes(draw):
+    """gmsh part of a gen_mesh recipe, with finer meshes than the shared strategies (partitions need elements)"""
+    et = draw(st.sampled_from(TYPES))
+    o = gm.ORDER[et]
+    if gm.dim_of(et) == 2:
+        verts = draw(gm.polygons(3, 6))
+        organised = draw(st.booleans()) if len(verts) in (3, 4) else False
+        h = draw(st.integers(2, 8)) / 10.0 * (1.0 if o <= 2 else 1.5)
+        return dict(verts=verts, h=round(h, 3), elemType=et, organised=organised, extrude=None, layers=0)
+    verts = draw(gm.polygons(3, 5))
+    organised = draw(st.booleans()) if len(verts) in (3, 4) else False
+    if et.startswith("HEXA"):
+        if draw(st.integers(0, 3)) > 0:  # mostly structured bricks; otherwise HEXA+PRISM mixes
+            verts = verts[:4] if len(verts) >= 4 else verts
+            organised = len(verts) == 4 or organised
+    if et.startswith("HEXA"):
+        h = draw(st.integers(3, 7)) / 10.0  # structured bricks need a finer size to get a few elements
     else:
-        r = draw(gm.recipes3d(affine_ok=False, perm_ok=False))
-    return cp.base_recipe(r)
+        h = draw(st.integers(5, 10)) / 10.0 * (1.0 if o == 1 else 1.2)
+    ex = [draw(st.integers(-2, 2)) / 4.0, draw(st.integers(-2, 2)) / 4.0, draw(st.integers(2, 6)) / 4.0]
+    layers = draw(st.integers(1, 3 if o == 1 else 2))
+    return dict(verts=verts, h=round(h, 3), elemType=et, organised=organised, extrude=ex, layers=layers)
 
 
 @st.composite
 def partition_cases(draw):
     r = draw(part_recipes())
-    nproc = draw(st.integers(1, NMAX))
+    nproc = 1 if draw(st.integers(0, 15)) == 0 else draw(st.integers(2, NMAX))
     full = draw(st.integers(0, 5)) == 0  # Nproc = Ne when the mesh is small
     coef = draw(st.sampled_from([1.0, 1.0, 0.5, 3.0]))
     return dict(recipe=r, nproc=nproc, full=full, coef=coef)
@@ -116,17 +134,15 @@ def interface_nodes(gl, owner_of_elem: dict) -> np.ndarray:
 def check_partition_sets(case, rec):
     r = case["recipe"]
     coef = float(case.get("coef", 1.0))
-    gl = cp.global_mesh(r, coef)
+    gl, parts, Nproc = cp.build(r, lambda Ne: pick_nproc(case, Ne), coef)
     if gl.Ne > NE_MAX:
         raise Inconclusive("mesh larger than the stated bound")
-    Nproc = pick_nproc(case, gl.Ne)
     types = gm.mesh_types(gl)
     mixed = len(cp.main_types(gl)) > 1
     sig0 = dict(elemType=r["elemType"], types=types, mixed=mixed, dim=int(gl.dim))
     rec.label("types:" + types, f"Nproc:{Nproc}" if Nproc <= 12 else "Nproc:>12",
               "Nproc=Ne" if Nproc == gl.Ne else "Nproc<Ne")
 
-    parts = cp.build_parts(r, Nproc, coef)
     rec.require(len(parts) == Nproc, "part_count", f"{len(parts)} meshes for Nproc={Nproc}", **sig0)
 
     Nn = gl.Nn
@@ -212,9 +228,12 @@ def check_partition_sets(case, rec):
             need = np.union1d(el, touch)
             missing = np.setdiff1d(need, exp_rows)
             extra = np.setdiff1d(exp_rows, need)
+            # (class of the miss: every missing element touches only owned nodes that this group does not list as its
+            #  own, i.e. nodes the part claimed through another element type)
+            cause = "node_owned_via_other_type" if cp.touching(gconn[missing], no, Nn).size == 0 else "other"
             rec.require(missing.size == 0, "ghost_layer_sufficient",
                         lambda: f"{types} Nproc={Nproc} {t} part {rnk}: elements {missing[:8].tolist()} touch an owned node "
-                                f"but are not in the part", **sig)
+                                f"but are not in the part", cause=cause, **sig)
             rec.require(extra.size == 0, "ghost_layer_minimal",
                         lambda: f"{types} Nproc={Nproc} {t} part {rnk}: ghost elements {extra[:8].tolist()} touch no owned node",
                         **sig)
@@ -224,9 +243,11 @@ def check_partition_sets(case, rec):
                         "group_nodes", f"{t} part {rnk}", **sig)
             rec.require(np.array_equal(gn, np.setdiff1d(pn, no)), "ghost_nodes",
                         f"{t} part {rnk}: ghostNodes != group nodes minus owned nodes", **sig)
+            cause = "node_owned_via_other_type" if np.setdiff1d(no, np.intersect1d(pn, O)).size == 0 else "other"
             rec.require(np.array_equal(no, np.intersect1d(pn, O)), "group_owned_nodes",
-                        lambda: f"{types} Nproc={Nproc} {t} part {rnk}: group owned nodes != (nodes owned by the part) "
-                                f"in the group; diff {np.setxor1d(no, np.intersect1d(pn, O))[:8].tolist()}", **sig)
+                        lambda: f"{types} Nproc={Nproc} {t} part {rnk}: the group lists as ghost nodes {np.setxor1d(no, np.intersect1d(pn, O))[:8].tolist()} "
+                                f"that the part owns (group owned nodes != nodes owned by the part that the group uses)",
+                        cause=cause, **sig)
             # coordinates
             rec.require(pg.Ncoords == Nn, "global_numbering", f"{t} part {rnk}: Ncoords={pg.Ncoords}", **sig)
             rec.require(np.array_equal(np.asarray(pg.coord, float), gcoord[pn]), "coordinates",
@@ -261,9 +282,12 @@ def check_partition_sets(case, rec):
             n_empty += 1
 
     # --- reproducible ----------------------------------------------------------------------
-    again = cp.build_parts(r, Nproc, coef)
-    rec.require(_snapshot(parts) == _snapshot(again), "reproducible",
-                f"{types} Nproc={Nproc}: two builds of the same partition differ", **sig0)
+    gl2, again, _ = cp.build(r, Nproc, coef)
+    if cp.same_mesh(gl, gl2):
+        rec.require(_snapshot(parts) == _snapshot(again), "reproducible",
+                    f"{types} Nproc={Nproc}: two builds of the same partition differ", **sig0)
+    else:  # gmsh itself produced another mesh (recombination of tiny unstructured QUAD/HEXA recipes)
+        rec.label("gmsh_mesh_not_reproducible(skipped reproducibility oracle)")
 
     if n_empty:
         rec.label("fewer_nonempty_parts_than_asked")
@@ -338,25 +362,38 @@ def rhs_vector(simu):
     return np.asarray(F.todense()).ravel() + np.asarray(simu.Bc_vector_Neumann(), float).ravel()
 
 
-def ghost_complete(gl, part, O, dim_sel) -> bool:
-    """harness set algebra: does the part hold every element (of the groups of dimension `dim_sel`) of the global
-    mesh that touches a node of O"""
+def ghost_diagnosis(gl, part, O, dims) -> str:
+    """harness set algebra: does the part hold every element (of the groups of dimensions `dims`) of the global mesh
+    that touches a node of O?  'complete' | 'incomplete:node_owned_via_other_type' | 'incomplete:other'"""
     pg = cp.groups(part)
-    for g in gl.Get_list_groupElem(dim_sel):
-        t = str(g.elemType)
-        touch = cp.touching(np.asarray(g.connect, int), O, gl.Nn)
-        have = np.asarray(pg[t]._globalElements, int) if t in pg else np.zeros(0, int)
-        if np.setdiff1d(touch, have).size:
-            return False
-    return True
+    out = "complete"
+    for d in dims:
+        for g in gl.Get_list_groupElem(d):
+            t = str(g.elemType)
+            gconn = np.asarray(g.connect, int)
+            touch = cp.touching(gconn, O, gl.Nn)
+            have = np.asarray(pg[t]._globalElements, int) if t in pg else np.zeros(0, int)
+            missing = np.setdiff1d(touch, have)
+            if missing.size:
+                no = _pdata(pg[t])[3] if t in pg else np.zeros(0, int)
+                if cp.touching(gconn[missing], no, gl.Nn).size:
+                    return "incomplete:other"
+                out = "incomplete:node_owned_via_other_type"
+    return out
+
+
+def _worst(*diags):
+    for d in ("incomplete:other", "incomplete:node_owned_via_other_type"):
+        if d in diags:
+            return d
+    return "complete"
 
 
 def check_row_complete(case, rec):
     r = case["recipe"]
-    gl = cp.global_mesh(r)
+    gl, parts, Nproc = cp.build(r, lambda Ne: pick_nproc(case, Ne))
     if gl.Ne > NE_MAX or gl.Ne < 2:
         raise Inconclusive("mesh size outside the stated bounds")
-    Nproc = pick_nproc(case, gl.Ne)
     types = gm.mesh_types(gl)
     mixed = len(cp.main_types(gl)) > 1
     problem = case["problem"]
@@ -392,20 +429,20 @@ def check_row_complete(case, rec):
     b_scale = float(np.abs(bg).max())
     r_scale = float(np.max(absK @ np.abs(u)))
 
-    parts = cp.build_parts(r, Nproc)
     rec.require(len(parts) == Nproc, "part_count", "", **sig0)
     Esum = {"K": 0.0, "M": 0.0, "C": 0.0}
     Rsum = np.zeros(u.size)
-    all_ok = True
+    g_worst = "complete"
     n_owned = 0
     for rnk, part in enumerate(parts):
         O = np.asarray(part._Get_mpi_owned_nodes(), int)
         n_owned += O.size
         od = (O[:, None] * dof_n + np.arange(dof_n)[None, :]).ravel()
-        gm_ok = ghost_complete(gl, part, O, gl.dim)
-        gb_ok = ghost_complete(gl, part, O, gl.dim - 1)
-        sig = dict(sig0, ghost_main="complete" if gm_ok else "incomplete",
-                   ghost_boundary="complete" if gb_ok else "incomplete")
+        g_main = ghost_diagnosis(gl, part, O, [gl.dim])
+        g_all = _worst(g_main, ghost_diagnosis(gl, part, O, [gl.dim - 1]))
+        g_worst = _worst(g_worst, g_all)
+        sig = dict(sig0, ghost=g_main)
+        sigb = dict(sig0, ghost=g_all)
         sp, _, _ = make_simu(part, case, tag_load, tag_fix)
         Kp, Cp, Mp, _ = sp.Get_K_C_M_F()
         bp = rhs_vector(sp)
@@ -416,14 +453,12 @@ def check_row_complete(case, rec):
                 continue
             D = (Ap[od] - Ag[od])
             err = float(abs(D).max()) if D.nnz else 0.0
-            ok = rec.close(err, scales[name], TOL, f"{name}_owned_rows",
-                           f"{types} {problem} Nproc={Nproc} part {rnk}: {name}_part[owned dofs,:] != {name}_global[owned dofs,:]",
-                           **sig)
-            all_ok &= ok
-        ok = rec.close(bp[od] - bg[od], b_scale, TOL, "rhs_owned_rows",
-                       f"{types} {problem} Nproc={Nproc} part {rnk}: right-hand side (F + loads) differs on owned dofs "
-                       f"(load on {tag_load})", **sig)
-        all_ok &= ok
+            rec.close(err, scales[name], TOL, f"{name}_owned_rows",
+                      f"{types} {problem} Nproc={Nproc} part {rnk}: {name}_part[owned dofs,:] != {name}_global[owned dofs,:]",
+                      **sig)
+        rec.close(bp[od] - bg[od], b_scale, TOL, "rhs_owned_rows",
+                  f"{types} {problem} Nproc={Nproc} part {rnk}: right-hand side (F + loads) differs on owned dofs "
+                  f"(load on {tag_load})", **sigb)
         # owned-row energies and reactions through the simulation API with explicit owned dofs
         Esum["K"] += float(sp.Calc_Energy(Kp, u, od))
         Esum["M"] += float(sp.Calc_Energy(Mp, v, od))
@@ -432,7 +467,7 @@ def check_row_complete(case, rec):
         dr = np.intersect1d(dofs_fix, od)
         if dr.size:
             Rsum[dr] += np.asarray(sp.Calc_Reaction(dr), float)
-    sigE = dict(sig0, rows="complete" if all_ok else "incomplete")
+    sigE = dict(sig0, ghost=g_worst)
     rec.require(n_owned == cp.used_nodes_main(gl).size, "node_has_owner", "owned nodes do not cover the mesh", **sig0)
     for name in ("K", "M", "C"):
         if e_scale[name] > 0:
@@ -515,7 +550,10 @@ def split_pieces(gl, k, assign_seed):
 
 def check_merge(case, rec):
     r = case["recipe"]
-    gl = cp.global_mesh(r)
+    if case["mode"] == "partition":
+        gl, parts, Nproc = cp.build(r, lambda Ne: max(1, min(int(case["nproc"]), Ne)))
+    else:
+        gl, parts, Nproc = cp.build(r, None)
     if gl.Ne > NE_MAX:
         raise Inconclusive("mesh larger than the stated bound")
     types = gm.mesh_types(gl)
@@ -527,8 +565,6 @@ def check_merge(case, rec):
     items = []
     sources = [gl]
     if case["mode"] == "partition":
-        Nproc = max(2, min(int(case["nproc"]), gl.Ne))
-        parts = cp.build_parts(r, Nproc)
         for rnk, part in enumerate(parts):
             rows_loc, rows_glob = {}, {}
             for t, pg in cp.groups(part).items():
@@ -545,9 +581,7 @@ def check_merge(case, rec):
         if len(items) < 2:
             raise Inconclusive("fewer than two non-empty parts")
     else:
-        k = int(case["k"])
-        if gl.Ne < k:
-            raise Inconclusive("fewer elements than pieces")
+        k = min(int(case["k"]), gl.Ne)
         pieces = split_pieces(gl, k, case["assign"])
         for p in range(k):
             sh = int(case["shifts"][p])
@@ -555,20 +589,20 @@ def check_merge(case, rec):
             if sub is None:
                 continue
             items.append((sub, 0, sh, l2g, {t: v for t, v in pieces[p].items() if np.size(v)}))
-        if case.get("dup") and items:
+        if case.get("dup") and 1 <= len(items) < 4:
             sub0, s0, sh0, l2g0, rows0 = items[0]
             sub, l2g = cp.submesh(gl, rows0, 12345, (SHIFT * sh0, 0.0, 0.0))
             items.append((sub, 0, sh0, l2g, rows0))
-        if case.get("recipe2"):
-            g2 = cp.global_mesh(case["recipe2"])
+        if case.get("recipe2") and len(items) < 4:
+            g2 = cp.build(case["recipe2"], None)[0]
             if g2.Ne <= NE_MAX:
                 sources.append(g2)
                 rows2 = {t: np.arange(g.Ne) for t, g in cp.groups(g2).items() if g.Ne}
                 sub, l2g = cp.submesh(g2, rows2, 7, (0.0, SHIFT * 3, 0.0))
                 items.append((sub, 1, 3, l2g, rows2))
                 rec.label("merge:two_recipes")
-        if len(items) < 2 or len(items) > 4:
-            raise Inconclusive("needs 2-4 non-empty meshes")
+        if len(items) < 2:
+            raise Inconclusive("needs at least 2 non-empty meshes")
 
     meshes = [it[0] for it in items]
     in_coords = [np.asarray(m.coord, float).copy() for m in meshes]
